@@ -5,13 +5,14 @@ import destgen as D
 ID = "C21"
 GEN = ["AtNames"]
 THEOREMS = ["C21_drop_only_in_ns", "C21_top_level_accepts", "C21_push_item_preserves", "C21_close_no_loss",
-            "C21_main", "C21_refuted_ns", "C21_error_propagates"]
+            "C21_main", "C21_refuted_ns", "C21_error_propagates", "C21_loop_error_not_overwritten"]
 COQ_HEADER = ("From Coq Require Import List NArith ZArith.\nFrom RV Require Import Model.Out Model.OutDest Spec.Reach Run.C21.\n"
               "Import ListNotations.\nLocal Open Scope N_scope.")
 RUN_EXPR = "Run.C21.run"
 RULE = ("random programs of the statement subset placing uniquely named marker declarations, body-less at-rules and loud "
         "comments in every container kind (style rules, nested-property blocks, @media, other at-rules, @at-root, @if, @each, "
-        "mixin bodies, content blocks) and @error in every statement position, compiled in both styles; distinct = distinct "
+        "mixin bodies, content blocks) and @error in every statement position - also conditionally on the loop variable in one "
+        "iteration of @each / @for / @while loops, raised directly, through an included mixin or through a called function -, compiled in both styles; distinct = distinct "
         "SCSS text; non-trivial = the run reaches at least one marker or an @error")
 EXHAUSTIVE = {"quick": False, "thorough": False}
 TRUSTED = ["Spec/Reach.v: which leaf statements a run reaches (reference semantics of the statement subset)",
@@ -25,6 +26,21 @@ WIT = [
     {"mixins": [], "main": [["r", [["p", "a"]], [["ns", "b", None, [["a", "supports", "(x: y)", [["d", "p001", "v001"]]]]]]]]},
     {"mixins": [[["e", "boom001"]]], "main": [["r", [["p", "a"]], [["inc", 0, None]]]]},
     {"mixins": [[["content"]]], "main": [["r", [["p", "a"]], [["inc", 0, [["loop", 2, [["if", True, [["e", "boom002"]], []]]]]]]]]},
+]
+
+
+def loop_wit(kind, inner):
+    return {"mixins": [[["e", "boom800"]]],
+            "main": [["each", kind, 1, 3, inner], ["r", [["p", ".tail"]], [["d", "marker", "reached"]]]]}
+
+
+WIT += [
+    # an error in a NON-FINAL iteration must not be overwritten by a later successful iteration (seeded C21-1)
+    loop_wit("each", [["r", [["p", "a"]], [["d", "p901", "v901"], ["ifv", 1, 1, [["e", "boom902"]], []], ["d", "p903", "v903"]]]]),
+    loop_wit("for", [["r", [["p", "a"]], [["ifv", 1, 0, [["e", "boom904"]], [["d", "p905", "v905"]]]]]]),
+    loop_wit("while", [["r", [["p", "a"]], [["dfn", 1, 1, "p906", "v906"]]]]),
+    loop_wit("each", [["r", [["p", "a"]], [["ifv", 1, 1, [["inc", 0, None]], []], ["d", "p907", "v907"]]]]),
+    loop_wit("each", [["ifv", 1, 2, [["e", "boom908"]], [["r", [["p", "b"]], [["d", "p909", "v909"]]]]]]),
 ]
 
 
